@@ -15,6 +15,9 @@ pub enum BackendKind {
     Local,
     GitLocal,
     GitRemote,
+    /// a shared bare remote that is still empty; both clones are made from it (each one
+    /// creates its own initial commit and salt, the first push publishes one of them)
+    GitRemoteFresh,
     Cloud,
     Http,
 }
@@ -235,6 +238,14 @@ impl Backend {
                 copy_dir(git_proto(true), &root);
                 b.root = Some(root);
             }
+            BackendKind::GitRemoteFresh => {
+                let root = fresh_dir("gitf");
+                let bare = root.join("remote.git");
+                std::fs::create_dir_all(&bare).unwrap();
+                let ok = std::process::Command::new("git").args(["init", "--bare", "-b", "main"]).current_dir(&bare).output().expect("git").status.success();
+                assert!(ok, "git init --bare");
+                b.root = Some(root);
+            }
             BackendKind::Cloud => {
                 b.store = Some(cloud::new_store(2));
             }
@@ -254,7 +265,7 @@ impl Backend {
         match self.kind {
             BackendKind::Local => ServerConfig::Local { server_dir: self.root.clone().unwrap() }.into_server().await.expect("local server"),
             BackendKind::GitLocal => git_config(self.root.as_ref().unwrap().join("clone0"), None).into_server().await.expect("git server"),
-            BackendKind::GitRemote => {
+            BackendKind::GitRemote | BackendKind::GitRemoteFresh => {
                 let root = self.root.as_ref().unwrap();
                 git_config(root.join(format!("clone{h}")), Some(root.join("remote.git").to_str().unwrap().into())).into_server().await.expect("git server")
             }
